@@ -285,10 +285,16 @@ impl BackupManager {
     /// This can be called in a background thread.
     pub fn execute_backup(&self, handle: &BackupHandle) -> Result<()> {
         // Copy .ndb file
+        #[cfg(nervusdb_verif)]
+        crate::verif_hooks::sched("backup.before_ndb_copy");
         self.copy_ndb_file(handle)?;
+        #[cfg(nervusdb_verif)]
+        crate::verif_hooks::sched("backup.between_copies");
 
         // Copy .wal file (from checkpoint position)
         self.copy_wal_file(handle)?;
+        #[cfg(nervusdb_verif)]
+        crate::verif_hooks::sched("backup.after_wal_copy");
 
         // Mark backup as completed
         {
